@@ -562,3 +562,9 @@ def run(rep, tier):
              'value the result depends on is constant -- otherwise the fold reads the empty optional of a non-constant node, i.e. whatever the '
              'heap held (import of the fold-effect rule C07-R8)', floor=20)
     c07.rule_fold_effects(_report.Import(rep, 'R4', 'C07'), idxs['xcmp.cpp'])
+    # R5: no member reads freed memory (what it finds there depends on the heap): import of C09-R16
+    from .. import robust
+    rep.rule('R5', 'no reference or view member (std::string_view, span) of a compiler / assembler object outlives what it is bound to: a '
+             'read through a dangling member yields whatever the heap holds, so listings and reports differ from run to run '
+             '(import of C09-R16)', floor=3)
+    robust.rule_dangling_reference_members(_report.Import(rep, 'R5', 'C09'), 'R16', idxs['xcmp.cpp'], ('xcmp::', 'hexasm::'))
